@@ -15,5 +15,7 @@ def run(tier):
                            "zero-fill replay (absent parts as explicit zeros)",
                            "one case = (concrete vector type, operation, form); operands range over all 2^k presence patterns; "
                            "TLC checks AbsentIsZero on every transition; the harness replays every behaviour with the model's "
-                           "representation and with every absent part replaced by explicit zeros: all parts must agree")
+                           "representation and with every absent part replaced by explicit zeros: all parts must agree; "
+                           "random accumulator histories recorded on the real crate are validated by TraceCalc.tla",
+                           traces=(kinds, 2500 if tier == "quick" else 30000))
     return chk.finish(extra={"exhaustive": True})
